@@ -113,6 +113,8 @@ class Ctx(object):
   def log(self, tag, *parts):
     self.micro += 1
     self._h.update(("%d|%d|%s" % (self.t, self.micro, tag)).encode())
+    parts = [(p + 0.0 if isinstance(p, np.ndarray) and p.dtype.kind == "f"
+              else p) for p in parts]  # -0.0 and +0.0 are the same state
     for p in parts:
       if isinstance(p, np.ndarray):
         self._h.update(str(p.dtype).encode())
